@@ -343,6 +343,52 @@ def load_corpus(pid):
     return out
 
 
+# ---------------------------------------------------------------- spellings of one array
+# The harness modules build the arrays they hand to the library with ``np.array([...floats...])``.  For a
+# "spelling twin" the very same request is evaluated with those arrays in another in-memory form that holds the
+# same numbers: big-endian, non-contiguous, read-only, (unsigned) integer dtype when every value is a whole
+# number.  The model sees the numbers only, so a library path that depends on the form (a dtype table, a
+# difference that wraps around, a write into the caller's buffer, a fast path for contiguous data) shows up as
+# a mismatch whose replay carries ``_spell``.  The harness modules get ``NP`` as their ``np``.
+SPELL = None
+SPELLS = ['be', 'strided', 'readonly', 'int', 'uint']
+
+
+def _respell(r, how):
+    import numpy as _np
+    whole = bool(_np.all(_np.isfinite(r)) and _np.all(r == _np.round(r)) and _np.all(_np.abs(r) < 2.0 ** 52))
+    if how == 'int' and whole:
+        return r.astype(_np.int64)
+    if how == 'uint' and whole and bool(_np.all(r >= 0)):
+        return r.astype(_np.uint64)
+    if how == 'readonly':
+        r = r.copy()
+        r.setflags(write=False)
+        return r
+    if how == 'be':
+        return r.astype('>f8')
+    big = _np.empty(2 * r.size + 1)
+    big[:] = _np.nan
+    big[1::2] = r
+    return big[1::2]
+
+
+class _NPProxy:
+    def __getattr__(self, k):
+        import numpy as _np
+        return getattr(_np, k)
+
+    def array(self, obj, *a, **kw):
+        import numpy as _np
+        r = _np.array(obj, *a, **kw)
+        if SPELL and not a and not kw and isinstance(obj, list) and r.ndim == 1 and r.dtype == _np.float64 and r.size > 1:
+            return _respell(r, SPELL)
+        return r
+
+
+NP = _NPProxy()
+
+
 def _as_rat(x):
     if isinstance(x, str):
         try:
@@ -396,29 +442,41 @@ def run_cases(rep, cases, impl_fn, model_fn=None, oracle_fn=None, rtol=1e-9, ato
     # (a memo keyed by size and end points, a module-level table) shows up as a mismatch / oracle failure whose
     # replay carries the decoy.  VERIF_NODECOY=1 switches this off.
     cases = list(cases)
+    extra = []
     if len(cases) > 8 and not os.environ.get('VERIF_NODECOY'):
         rng = rep.rng('decoy')
-        extra = []
         for c in cases:
             if isinstance(c, dict) and '_decoy' not in c and not ({'fname', 'path', 'file', '_nodecoy'} & set(c)) and rng.random() < 0.1:
                 d = related_request(c, rng)
                 if d is not None:
                     extra.append(dict(c, _decoy=d))
-        cases += extra
-        inner = impl_fn
+    if len(cases) > 8 and not os.environ.get('VERIF_NOSPELL'):
+        rng2 = rep.rng('spell')
+        for c in cases:
+            if isinstance(c, dict) and '_decoy' not in c and '_spell' not in c and not ({'fname', 'path', 'file', '_nospell'} & set(c)) and rng2.random() < 0.06:
+                extra.append(dict(c, _spell=rng2.choice(SPELLS)))
+    cases += extra
+    inner = impl_fn
 
-        def impl_fn(c, inner=inner):        # noqa: F811
-            if isinstance(c, dict) and '_decoy' in c:
-                try:
-                    inner(c['_decoy'])
-                except Exception:   # noqa
-                    pass
-                return inner({k: v for k, v in c.items() if k != '_decoy'})
-            return inner(c)
+    def impl_fn(c, inner=inner):        # noqa: F811
+        global SPELL
+        if isinstance(c, dict) and '_spell' in c:
+            SPELL = c['_spell']
+            try:
+                return inner({k: v for k, v in c.items() if k != '_spell'})
+            finally:
+                SPELL = None
+        if isinstance(c, dict) and '_decoy' in c:
+            try:
+                inner(c['_decoy'])
+            except Exception:   # noqa
+                pass
+            return inner({k: v for k, v in c.items() if k != '_decoy'})
+        return inner(c)
     impl = pmap(impl_fn, cases)
     mcases, midx = [], []
     for i, c in enumerate(cases):
-        cm = {k: v for k, v in c.items() if k != '_decoy'} if isinstance(c, dict) else c
+        cm = {k: v for k, v in c.items() if k not in ('_decoy', '_spell')} if isinstance(c, dict) else c
         mc = model_fn(cm) if model_fn else cm
         if mc is not None:
             mcases.append(mc)
